@@ -20,7 +20,7 @@ GRAMMAR = re.compile(r"^ClientConnected( ClientRequested( ServerConnecting( Conn
 
 async def population(out, rng, seed, P, oport, closed, uport, n, truth, io_name, hold_evt):
     """runs n mixed connections; fills truth[src_port] = dict(...)"""
-    kinds = ["ok", "ok", "ok", "ok-early", "ok-early", "deny", "refused", "abort-before", "abort-during", "abort-after", "garbage", "tls-fail", "udp", "ok-tls", "ok-socks4", "ok-rev", "ok-upearly", "ok-upearly"]
+    kinds = ["ok", "ok", "ok", "ok-early", "ok-early", "deny", "refused", "abort-before", "abort-during", "abort-after", "garbage", "tls-fail", "udp", "ok-tls", "ok-socks4", "ok-rev", "ok-upearly", "ok-upearly", "ok-backpressure"]
 
     async def one(i):
         kind = rng.choice(kinds)
@@ -91,6 +91,32 @@ async def population(out, rng, seed, P, oport, closed, uport, n, truth, io_name,
                 await c.drain()
                 got = await c.read_exact(n_c2s, timeout=15)
                 rec.update(c2s=n_c2s, s2c=len(banner) + len(got))
+                c.eof()
+                try:
+                    await c.read_all(timeout=5)
+                except Exception:
+                    pass
+                c.close()
+            elif kind == "ok-backpressure":
+                # megabytes towards a peer that is not reading yet: the proxy meets short writes; counters must still equal the payload
+                n_c2s = 3 << 20
+                payload = keystream(seed, uid, "c2s", n_c2s)
+                c = await open_conn("127.0.0.1", P["http"] if rng.random() < 0.5 else P["rev"], rcvbuf=65536)
+                lname = "http" if c.w.get_extra_info("peername")[1] == P["http"] else "rev"
+                if lname == "http":
+                    st, _ = await http_connect(c, "127.0.0.1", oport)
+                    rec.update(ok=st == 200)
+                else:
+                    rec.update(ok=True)
+                rec.update(listener=lname, src=c.local[1], target="127.0.0.1:%d" % oport, connector="direct", outcome="success")
+                truth[rec["src"]] = rec
+                c.w.transport.pause_reading()      # the echo piles up, then the origin stops reading, then the proxy's buffers fill
+                c.write(payload)
+                await asyncio.sleep(0.6)
+                c.w.transport.resume_reading()
+                await c.drain()
+                got = await c.read_exact(n_c2s, timeout=30)
+                rec.update(c2s=n_c2s, s2c=len(got))
                 c.eof()
                 try:
                     await c.read_all(timeout=5)
@@ -177,6 +203,90 @@ async def population(out, rng, seed, P, oport, closed, uport, n, truth, io_name,
 
 def port_of(src):
     return int(src.rsplit(":", 1)[1])
+
+
+async def gc_window_scenario(out, args, wd, oport):
+    """connections that end while the collector is busy (here: blocked on an access-log sink that is not being read for a while)
+    must still be logged and archived exactly once when it goes on"""
+    import fcntl
+    fifo = os.path.join(wd, "slow-access.log")
+    os.mkfifo(fifo)
+    rfd = os.open(fifo, os.O_RDONLY | os.O_NONBLOCK)
+    try:
+        fcntl.fcntl(rfd, 1031, 4096)  # F_SETPIPE_SZ
+    except OSError:
+        pass
+    P = {k: free_port() for k in ("rev", "api")}
+    G = Proxy(args.bin, base_cfg([{"name": "rev", "type": "reverse", "bind": "127.0.0.1:%d" % P["rev"], "target": "127.0.0.1:%d" % oport}], [{"name": "direct"}], [{"target": "direct"}],
+                                 metrics_port=P["api"], history=2000, access_log={"path": fifo, "format": "json"}), "G", wd)
+    srcs = []
+    try:
+        await G.start()
+
+        async def short():
+            c = await open_conn("127.0.0.1", P["rev"])
+            srcs.append(c.local[1])
+            c.write(b"x")
+            await c.drain()
+            try:
+                await c.read_exact(1, timeout=5)
+            except Exception:
+                pass
+            c.close()
+        for i in range(0, 400, 40):
+            await asyncio.gather(*[short() for _ in range(40)])
+        await asyncio.sleep(2.5)   # the collector is now blocked on the log queue with hundreds of ended connections in hand
+        for i in range(0, 60, 20):
+            await asyncio.gather(*[short() for _ in range(20)])
+            await asyncio.sleep(0.4)
+        # now read the log
+        buf = b""
+        t_end = now() + 9.0
+        flushed = 0
+        while now() < t_end:
+            try:
+                b = os.read(rfd, 1 << 20)
+                if b:
+                    buf += b
+                    continue
+            except BlockingIOError:
+                pass
+            if buf.count(b"\n") >= len(srcs):
+                break
+            if now() > t_end - 9.0 + 3.5 * (flushed + 1) and flushed < 2:
+                # the log writer is buffered: only a rotation flushes its tail
+                flushed += 1
+                asyncio.ensure_future(G.api("POST", "/logrotate", b""))
+            await asyncio.sleep(0.05)
+        logged = {}
+        for l in buf.split(b"\n"):
+            if l.strip():
+                try:
+                    j = json.loads(l)
+                    logged[port_of(j["source"])] = logged.get(port_of(j["source"]), 0) + 1
+                except ValueError:
+                    out.violation("access log line is not valid JSON", {"line": l[:120].decode("latin1")})
+        hist = await G.api_json("/history", timeout=20)
+        archived = {}
+        for h in hist:
+            archived[port_of(h["source"])] = archived.get(port_of(h["source"]), 0) + 1
+        out.case(len(srcs))
+        missing_log = [p for p in srcs if logged.get(p, 0) == 0]
+        multi_log = [p for p in srcs if logged.get(p, 0) > 1]
+        missing_hist = [p for p in srcs if archived.get(p, 0) == 0]
+        out.nontrivial(("collector-busy", len(srcs), len(missing_log) == 0))
+        out.setx("collector_busy_connections", len(srcs))
+        if missing_log:
+            out.violation("accepted connection has no access-log line (it ended while the collector was busy)", {"connections": len(srcs), "without_log_line": len(missing_log), "of_them_in_the_late_group": sum(1 for p in missing_log if p in srcs[400:])})
+        if multi_log:
+            out.violation("a connection is reported more than once in the access log", {"count": len(multi_log), "scenario": "collector busy"})
+        if missing_hist:
+            out.violation("ended connection is missing from /api/history although the history is larger than the run (it ended while the collector was busy)", {"connections": len(srcs), "missing": len(missing_hist)})
+        if not G.alive():
+            out.violation("proxy process died", {"rc": G.exit_status(), "stderr": G.stderr_tail(600)})
+    finally:
+        G.kill()
+        os.close(rfd)
 
 
 async def main(args):
@@ -379,6 +489,7 @@ async def main(args):
                 out.violation("proxy process died", {"rc": A.exit_status(), "stderr": A.stderr_tail(800)})
         finally:
             A.kill()
+    await gc_window_scenario(out, args, wd, origin.port)
     import shutil
     shutil.rmtree(wd, ignore_errors=True)
     await origin.stop()
